@@ -192,6 +192,7 @@ int table_parse(struct wcfg *c, const char *spec)
                                         case 'd': cm->disable = 1; break;
                                         case 'i': cm->implicit = 1; break;
                                         case 'n': cm->need_all = 1; break;
+                                        case 'p': cm->var_ptr = 1; break;
                                         default: free(dup); free(cmds); return -1;
                                         }
                                 a = asep ? ae + 1 : ae;
@@ -240,6 +241,7 @@ void table_print(const struct wcfg *c, char *out, size_t n)
                 if (cm->disable) fl[k++] = 'd';
                 if (cm->implicit) fl[k++] = 'i';
                 if (cm->need_all) fl[k++] = 'n';
+                if (cm->var_ptr) fl[k++] = 'p';
                 fl[k] = 0;
                 if (k) { SEP(); AP("%s", fl); }
                 for (int v = 0; v < cm->nvar; v++) {
@@ -374,7 +376,7 @@ void world_init(void)
                 c->read = (wc->hmask & HM_R) ? h_read : NULL;
                 c->run = (wc->hmask & HM_U) ? h_run : NULL;
                 c->test = (wc->hmask & HM_T) ? h_test : NULL;
-                c->var = wc->nvar ? &I.vars[k] : NULL;
+                c->var = wc->nvar ? &I.vars[k] : (wc->var_ptr ? &I.vars[0] : NULL);
                 c->var_num = wc->nvar;
                 c->need_all_vars = wc->need_all; c->only_test = wc->only_test;
                 c->disable = wc->disable; c->implicit_write = wc->implicit;
